@@ -444,10 +444,11 @@ def Predictor.predictTags (p : Predictor) (s : Sentence) : Res Sentence :=
   match p.tagPredictor with
   | none => .panic "this predictor is created with predict_tags = false"
   | some tpm =>
-    if p.nTags = 0 then .ok s else
     let n := s.types.length
-    let s1 := { s with nTags := p.nTags, tags := List.replicate (n * p.nTags) none,
-                       tagScores := if p.storeTagScores then List.replicate n none else [] }
+    -- (fix F-C20b) the score slots are allocated before the early return for models without tag categories
+    let s := { s with tagScores := if p.storeTagScores then List.replicate n none else [] }
+    if p.nTags = 0 then .ok s else
+    let s1 := { s with nTags := p.nTags, tags := List.replicate (n * p.nTags) none }
     let rec go : List B → Nat → Option Nat → Sentence → Res (Sentence × Option Nat)
       | [], _, rs, s => .ok (s, rs)
       | b :: r, i, rs, s =>
